@@ -1416,3 +1416,29 @@ Lemma gcxs_axes_distinct_refuted_proof :
     gcxs_reduce_z 0 ax false g = Ok r /\
     np_reduce_dense Z (op_z 0) (ufunc_cast 0) (ufunc_ident 0) ax false (todense (gcxs_to_coo Z g)) 0 = Raise ValueError.
 Proof. exists ex_g, (AxTuple [0; 0]). eexists. vm_compute. repeat split; reflexivity. Qed.
+
+(* ------------------------------------------------------------------ dtype promotion of mean / var *)
+(* integer and bool inputs are accumulated and returned in float64 (as numpy.mean / numpy.var do);
+   float16 is accumulated in float32; other floating dtypes are kept; an explicit dtype= is used for both *)
+Theorem mean_dtype_promotion_proof :
+  (forall k, In k int_or_bool_dtypes -> mean_dtypes k None = Ok (11, 11)) /\
+  mean_dtypes 9 None = Ok (9, 10) /\
+  (forall k, In k [10; 11; 12; 13] -> mean_dtypes k None = Ok (k, k)) /\
+  (forall k d, In k [0; 1; 2; 3; 4; 5; 6; 7; 8; 9; 10; 11; 12; 13] -> mean_dtypes k (Some d) = Ok (d, d)).
+Proof.
+  split; [|split; [vm_compute; reflexivity|split]].
+  - intros k H. cbn in H. repeat (destruct H as [<-|H]; [vm_compute; reflexivity|]). contradiction.
+  - intros k H. cbn in H. repeat (destruct H as [<-|H]; [vm_compute; reflexivity|]). contradiction.
+  - intros k d H. cbn in H. repeat (destruct H as [<-|H]; [reflexivity|]). contradiction.
+Qed.
+
+Theorem var_dtype_promotion_proof :
+  (forall k, In k int_or_bool_dtypes -> var_dtype k None = Ok (Some 11)) /\
+  (forall k, In k [9; 10; 11; 12; 13] -> var_dtype k None = Ok None) /\
+  (forall k d, In k [0; 1; 2; 3; 4; 5; 6; 7; 8; 9; 10; 11; 12; 13] -> var_dtype k (Some d) = Ok (Some d)).
+Proof.
+  split; [|split].
+  - intros k H. cbn in H. repeat (destruct H as [<-|H]; [vm_compute; reflexivity|]). contradiction.
+  - intros k H. cbn in H. repeat (destruct H as [<-|H]; [vm_compute; reflexivity|]). contradiction.
+  - intros k d H. cbn in H. repeat (destruct H as [<-|H]; [reflexivity|]). contradiction.
+Qed.
